@@ -1554,3 +1554,227 @@ fn cir(e: &ir::Expr, o: CanonOpts, out: &mut String) {
 		}
 	}
 }
+
+// ------------------------------------------------------------------------------------------------
+// jrsonnet_ir::Expr -> harness AST (used to feed reference-library *text* and repository programs to the model;
+// the parser is the trusted part there, it is checked on its own by C06)
+
+fn ie_params(ps: &ir::ExprParams) -> Option<Vec<Param>> {
+	ps.exprs
+		.iter()
+		.map(|p| {
+			Some(Param {
+				name: match &p.destruct {
+					ir::Destruct::Full(n) => n.to_string(),
+					#[allow(unreachable_patterns)]
+					_ => return None,
+				},
+				default: match &p.default {
+					Some(d) => Some(ir_to_ex(d)?),
+					None => None,
+				},
+			})
+		})
+		.collect()
+}
+fn ie_bind(b: &ir::BindSpec) -> Option<Bind> {
+	Some(match b {
+		ir::BindSpec::Field { into, value } => match into {
+			ir::Destruct::Full(n) => Bind::Var(n.to_string(), ir_to_ex(value)?),
+			#[allow(unreachable_patterns)]
+			_ => return None,
+		},
+		ir::BindSpec::Function { name, params, value } => Bind::Func(name.to_string(), ie_params(params)?, ir_to_ex(value)?),
+	})
+}
+fn ie_specs(cs: &[ir::CompSpec]) -> Option<Vec<Comp>> {
+	cs.iter()
+		.map(|c| {
+			Some(match c {
+				ir::CompSpec::ForSpec(f) => match &f.destruct {
+					ir::Destruct::Full(n) => Comp::For(n.to_string(), ir_to_ex(&f.over)?),
+					#[allow(unreachable_patterns)]
+					_ => return None,
+				},
+				ir::CompSpec::IfSpec(i) => Comp::If(ir_to_ex(&i.cond)?),
+			})
+		})
+		.collect()
+}
+fn ie_vis(v: ir::Visibility) -> Vis {
+	match v {
+		ir::Visibility::Normal => Vis::Normal,
+		ir::Visibility::Hidden => Vis::Hidden,
+		ir::Visibility::Unhide => Vis::Unhide,
+	}
+}
+fn ie_field(f: &ir::FieldMember) -> Option<Member> {
+	Some(Member::Field {
+		name: match &f.name.value {
+			ir::FieldName::Fixed(n) => FieldName::Str(n.to_string(), StrStyle::Double),
+			ir::FieldName::Dyn(e) => FieldName::Dyn(ir_to_ex(e)?),
+		},
+		plus: f.plus,
+		vis: ie_vis(f.visibility),
+		params: match &f.params {
+			Some(ps) => Some(ie_params(ps)?),
+			None => None,
+		},
+		value: ir_to_ex(&f.value)?,
+	})
+}
+fn ie_obj(b: &ir::ObjBody) -> Option<Ex> {
+	Some(match b {
+		ir::ObjBody::MemberList(m) => {
+			let mut ms = vec![];
+			for l in m.locals.iter() {
+				ms.push(Member::Local(ie_bind(l)?));
+			}
+			for a in m.asserts.iter() {
+				ms.push(Member::Assert(
+					ir_to_ex(&a.0.value)?,
+					match &a.1 {
+						Some(m) => Some(ir_to_ex(&m.value)?),
+						None => None,
+					},
+				));
+			}
+			for f in &m.fields {
+				ms.push(ie_field(f)?);
+			}
+			Ex::Obj(ms)
+		}
+		ir::ObjBody::ObjComp(c) => {
+			let Member::Field { name, plus, vis, params: None, value } = ie_field(&c.field)? else { return None };
+			let name = match name {
+				FieldName::Dyn(e) => e,
+				FieldName::Str(s, _) | FieldName::Id(s) => Ex::Str(s, StrStyle::Double),
+			};
+			Ex::ObjComp { pre: c.locals.iter().map(ie_bind).collect::<Option<Vec<_>>>()?, name: bx(name), plus, vis, value: bx(value), post: vec![], specs: ie_specs(&c.compspecs)? }
+		}
+	})
+}
+pub fn ir_to_ex(e: &ir::Expr) -> Option<Ex> {
+	use ir::Expr::*;
+	Some(match e {
+		Literal(l) => match l {
+			ir::LiteralType::This => Ex::SelfE,
+			ir::LiteralType::Super => return None,
+			ir::LiteralType::Dollar => Ex::Dollar,
+			ir::LiteralType::Null => Ex::Null,
+			ir::LiteralType::True => Ex::True,
+			ir::LiteralType::False => Ex::False,
+		},
+		Str(s) => Ex::Str(s.to_string(), StrStyle::Double),
+		Num(n) => Ex::Num(*n, None),
+		Var(n) => Ex::Var(n.value.to_string()),
+		Arr(v) => Ex::Arr(v.iter().map(ir_to_ex).collect::<Option<Vec<_>>>()?),
+		ArrComp(x, cs) => Ex::ArrComp(bx(ir_to_ex(x)?), ie_specs(cs)?),
+		Obj(b) => ie_obj(b)?,
+		ObjExtend(a, b) => Ex::ObjExt(bx(ir_to_ex(a)?), bx(ie_obj(b)?)),
+		UnaryOp(op, x) => Ex::Un(
+			match op {
+				ir::UnaryOpType::Plus => UnOp::Plus,
+				ir::UnaryOpType::Minus => UnOp::Neg,
+				ir::UnaryOpType::BitNot => UnOp::BitNot,
+				ir::UnaryOpType::Not => UnOp::Not,
+			},
+			bx(ir_to_ex(x)?),
+		),
+		BinaryOp(b) => {
+			use ir::BinaryOpType as B;
+			if b.op == B::In && matches!(b.rhs, Literal(ir::LiteralType::Super)) {
+				return Some(Ex::InSuper(bx(ir_to_ex(&b.lhs)?)));
+			}
+			let op = match b.op {
+				B::Mul => BinOp::Mul,
+				B::Div => BinOp::Div,
+				B::Mod => BinOp::Mod,
+				B::Add => BinOp::Add,
+				B::Sub => BinOp::Sub,
+				B::Lhs => BinOp::Shl,
+				B::Rhs => BinOp::Shr,
+				B::Lt => BinOp::Lt,
+				B::Gt => BinOp::Gt,
+				B::Lte => BinOp::Le,
+				B::Gte => BinOp::Ge,
+				B::BitAnd => BinOp::BitAnd,
+				B::BitOr => BinOp::BitOr,
+				B::BitXor => BinOp::BitXor,
+				B::Eq => BinOp::Eq,
+				B::Neq => BinOp::Ne,
+				B::And => BinOp::And,
+				B::Or => BinOp::Or,
+				B::In => BinOp::In,
+				#[allow(unreachable_patterns)]
+				_ => return None,
+			};
+			Ex::Bin(op, bx(ir_to_ex(&b.lhs)?), bx(ir_to_ex(&b.rhs)?))
+		}
+		AssertExpr(a) => Ex::Assert(
+			bx(ir_to_ex(&a.assert.0.value)?),
+			match &a.assert.1 {
+				Some(m) => Some(bx(ir_to_ex(&m.value)?)),
+				None => None,
+			},
+			bx(ir_to_ex(&a.rest)?),
+		),
+		LocalExpr(bs, b) => Ex::Local(bs.iter().map(ie_bind).collect::<Option<Vec<_>>>()?, bx(ir_to_ex(b)?)),
+		Import(k, p) => {
+			let Str(path) = &**p else { return None };
+			match k.value {
+				ir::ImportKind::Normal => Ex::Import(path.to_string()),
+				ir::ImportKind::Str => Ex::ImportStr(path.to_string()),
+				ir::ImportKind::Bin => Ex::ImportBin(path.to_string()),
+			}
+		}
+		ErrorStmt(_, x) => Ex::Error(bx(ir_to_ex(x)?)),
+		Apply(f, args, ts) => Ex::Call(
+			bx(ir_to_ex(f)?),
+			args.value.unnamed.iter().map(|a| ir_to_ex(a)).collect::<Option<Vec<_>>>()?,
+			args.value.named.iter().map(|(n, a)| Some((n.to_string(), ir_to_ex(a)?))).collect::<Option<Vec<_>>>()?,
+			*ts,
+		),
+		Index { indexable, parts } => {
+			let mut cur = if matches!(**indexable, Literal(ir::LiteralType::Super)) {
+				let first = parts.first()?;
+				let mut c = Ex::SuperIndex(bx(ir_to_ex(&first.value)?));
+				for p in &parts[1..] {
+					c = Ex::Index(bx(c), bx(ir_to_ex(&p.value)?));
+				}
+				return Some(c);
+			} else {
+				ir_to_ex(indexable)?
+			};
+			for p in parts {
+				cur = Ex::Index(bx(cur), bx(ir_to_ex(&p.value)?));
+			}
+			cur
+		}
+		Function(ps, b) => Ex::Func(ie_params(ps)?, bx(ir_to_ex(b)?)),
+		IfElse(i) => Ex::If(
+			bx(ir_to_ex(&i.cond.cond)?),
+			bx(ir_to_ex(&i.cond_then)?),
+			match &i.cond_else {
+				Some(e) => Some(bx(ir_to_ex(e)?)),
+				None => None,
+			},
+		),
+		Slice(s) => {
+			let part = |p: &Option<ir::Spanned<ir::Expr>>| -> Option<Option<Box<Ex>>> {
+				Some(match p {
+					Some(p) => Some(bx(ir_to_ex(&p.value)?)),
+					None => None,
+				})
+			};
+			Ex::Slice(bx(ir_to_ex(&s.value)?), part(&s.slice.start)?, part(&s.slice.end)?, part(&s.slice.step)?)
+		}
+	})
+}
+
+/// parse Jsonnet text (default parser) into the harness AST
+pub fn parse_to_ex(code: &str) -> Option<Ex> {
+	let source = ir::Source::new_virtual("ref.jsonnet".into(), code.into());
+	let e = jrsonnet_ir_parser::parse(code, &jrsonnet_ir_parser::ParserSettings { source }).ok()?;
+	ir_to_ex(&e)
+}
